@@ -53,7 +53,7 @@ Definition dispatch_graph (op : N) (args : list sx) : option sx :=
       (* the SPECIFICATION of Spec/GraphWeights.v on the model's graph: (applicable? ((relation-node weights)...)) *)
       option_map (fun m => match wbuild m with
                            | Ok g => SL [sx_bool (dag_check g);
-                                         sx_list (fun n => SL [sx_str (n_id n); sx_wmap (spec_weights g (n_id n))])
+                                         sx_list (fun n => SL [sx_str (n_id n); sx_wmap (spec_weights g (n_id n)); sx_list sx_str (spec_wildcards g (n_id n))])
                                                  (filter (fun n => match n_type n with NTypeRel => true | _ => false end) (g_nodes g))]
                            | _ => SL [SA 2; SL []]
                            end) (un_model m)
